@@ -12,7 +12,7 @@ import (
 )
 
 // maxLogN is the degree all primes are made NTT-friendly for (≡ 1 mod 2^(maxLogN+2)).
-const maxLogN = 5
+const maxLogN = 6
 
 // qChains are the shapes of Q (DESIGN §5: 30-bit, 55/60-bit and mixed sizes, #Q in 1..6).
 func qChains(tier string) []rk.Chain {
